@@ -65,6 +65,7 @@ def run(ctx):
     lens_family(ctx, dx, lam)
     stack_family(ctx, dx, lam)
     W.storage_independence(ctx, 'C04')
+    W.argument_types(ctx, 'C04')
 
 
 def one_family(ctx, n, w0, z, dx, lam, methods):
